@@ -172,6 +172,13 @@ type Exec struct {
 	spawned []*FuncV
 
 	dbgDone   bool
+	unmodelledWritten map[string]bool
+	retCond   *Term // disjunction of the path conditions of the returns of the last completed run
+	asserts   map[string][2]Value
+	assertHeap Heap
+	curArgs   [][]Value
+	curEntry  []Heap
+	iters     []*IterV
 	curFacts  map[*Term]*Term
 	seedFacts map[*Term]*Term // facts implied by the hypotheses of the case (each is also an obligation of the split's own lemma)
 	notApplicable []string
@@ -192,7 +199,7 @@ type Exec struct {
 }
 
 func NewExec(ld *Loaded) *Exec {
-	x := &Exec{b: NewB(), ld: ld, reads: map[string][]*Term{}, appliedNames: map[string]int{}, safetyN: map[string]int{}}
+	x := &Exec{b: NewB(), ld: ld, reads: map[string][]*Term{}, appliedNames: map[string]int{}, safetyN: map[string]int{}, unmodelledWritten: map[string]bool{}}
 	return x
 }
 
@@ -464,7 +471,14 @@ func (x *Exec) run(fn *ssa.Function, args []Value, st *State, pcIn *Term) (Value
 	}
 	x.depth++
 	x.stack = append(x.stack, fn)
-	defer func() { x.depth--; x.stack = x.stack[:len(x.stack)-1] }()
+	x.curArgs = append(x.curArgs, args)
+	x.curEntry = append(x.curEntry, st.h.clone())
+	defer func() {
+		x.depth--
+		x.stack = x.stack[:len(x.stack)-1]
+		x.curArgs = x.curArgs[:len(x.curArgs)-1]
+		x.curEntry = x.curEntry[:len(x.curEntry)-1]
+	}()
 	b := x.b
 	fi := x.info(fn)
 	vals := map[ssa.Value]Value{}
@@ -779,6 +793,10 @@ func (x *Exec) run(fn *ssa.Function, args []Value, st *State, pcIn *Term) (Value
 	// merge returns
 	var rst *State
 	var rv Value
+	x.retCond = b.False()
+	for _, e := range rets {
+		x.retCond = b.Or(x.retCond, e.cond)
+	}
 	for k, e := range rets {
 		if e.cond.Op == "false" {
 			continue
@@ -1278,9 +1296,26 @@ func (x *Exec) typeAssert(i *ssa.TypeAssert, v *IfaceV, st *State, pc *Term) Val
 			ok = b.False()
 		}
 	} else if v.Opaque != "" {
-		// unknown dynamic type: a fresh boolean decides, value symbolic
-		ok = b.And(b.Not(x.ifaceNil(v)), b.Fresh("is_"+typeName(i.AssertedType), BoolS()))
-		val = x.symV(i.AssertedType, b.Fresh("asserted", BoolS()).Name, st.h)
+		// unknown dynamic type: a boolean unknown decides, the value is symbolic;
+		// the same question about the same value always has the same answer
+		key := v.Opaque + "|" + typeName(i.AssertedType)
+		if x.asserts == nil {
+			x.asserts = map[string][2]Value{}
+		}
+		if m, seen := x.asserts[key]; seen {
+			ok, val = m[0].(*Term), m[1]
+		} else {
+			isT := b.Var("is_"+typeName(i.AssertedType)+"_"+sanitize(v.Opaque), BoolS())
+			val = x.symV(i.AssertedType, "asserted_"+sanitize(v.Opaque), x.assertObjs())
+			x.asserts[key] = [2]Value{isT, val}
+			ok = isT
+		}
+		for o, ov := range x.assertHeap {
+			if _, have := st.h[o]; !have {
+				st.h[o] = ov
+			}
+		}
+		ok = b.And(b.Not(x.ifaceNil(v)), ok)
 	} else {
 		ok = b.False()
 	}
@@ -1357,4 +1392,11 @@ func dumpTerm(t *Term, depth int) string {
 		op = fmt.Sprintf("extract[%d:%d]", t.Val>>16, t.Val&0xffff)
 	}
 	return "(" + op + " " + strings.Join(as, " ") + ")"
+}
+
+func (x *Exec) assertObjs() Heap {
+	if x.assertHeap == nil {
+		x.assertHeap = Heap{}
+	}
+	return x.assertHeap
 }
